@@ -60,6 +60,10 @@ def run(chk: Check, proj: Project) -> None:
                lambda sub: C09.s1_s3(sub, proj, _m9, _f9))
     chk.borrow("S14", "a stock template that takes the quote-aware path (any tag with a quote in it) is lexed as Django lexes it: the decisions re-implemented from Lexer.create_token - when a verbatim block starts, which tag ends it ('end' + the whole contents of the start tag), how contents are stripped - are Django's own, compared with the installed source (shared with C09-S10)",
                lambda sub: C09.s10_same_as_django(sub, proj, _m9, _f9))
+    from . import C01 as _C01
+
+    chk.borrow("S15", "a component body composes with {% include %}: fills are discovered by RENDERING the body (an included template may contribute them), not by searching the body's own node tree; and the dynamic component hands its target a snapshot of the context taken at the tag's position, so a deferred render does not inherit block overrides that were popped in between (shared with C01-S11 / C01-S5)",
+               lambda sub: (_C01.s11(sub, proj, world(proj)), _C01.s5(sub, proj, world(proj))), only=lambda o: "discovery" in o.construct or "dynamic" in o.construct.lower())
     from . import C18 as _C18
 
     chk.borrow("S13", "a component's template is compiled with ITS OWN name and origin: the template cache key covers every input of the compilation - `origin.template_name` is what Django resolves a relative {% extends './base.html' %} / {% include './row.html' %} against, so two components with byte-identical template files in different directories must not share one compiled Template (shared with C18-S4)",
